@@ -17,8 +17,8 @@ checks = {
    note="Trusted: sync.Mutex, sync/atomic.Value, porcupine's Illegal verdict (Unknown is counted, never reported). Interleavings inside one Go map copy are not explored (no yield point there).",
    technique="deterministic simulation: seeded scheduler over hook points + stalled-callback faults, linearizability of the recorded history (porcupine) against a sequential model"),
  "C06": dict(cat="exploration", design="DESIGN.md §4 C06",
-   text="Seeded deterministic simulation of random future-combinator expression trees (Map/FlatMap/Flatten/Map2/Zip/Zip3/Ap/ApFunc/LiftA*/LiftM*/Flap*/Method*/FlatMethod*/Compose*/With/Sequence*/Traverse*/FlatMapTraverse*/FoldFuture/Transform*/Recover*/Or/OrFuture/Failed/Replace/MapSeqLift, Chain2-3 and Applicative2-3 builders with every Ap* variant, Apply/Apply2/Func*/Unit* leaves with failing and panicking bodies) over source promises completed in seeded phases (before the build, during, after, never), per-node executors, every atomic step a scheduling point. After every scheduler step every built node that is complete must equal a hand-written three-valued (Pending/Success/Failure) left-to-right reference evaluation over the currently completed sources (never early, right value, stable); at every quiescence complete <=> reference not Pending (always completes, also for Apply bodies that panic); root observers fire exactly once. Sampling, not proof.",
-   note="Trusted: the harness's reference interpreter (independent of the try package), executors never drop a runnable, user functions other than Apply bodies do not panic. Await/promise.WithTimeout (real timers) are outside the statement. Arities above 4 (LiftA5..9, Chain4..9) are not generated.",
+   text="Seeded deterministic simulation of random future-combinator expression trees (Map/FlatMap/Flatten/Map2/Zip/Zip3/Ap/ApFunc/LiftA*/LiftM*/Flap*/Method*/FlatMethod*/Compose*/With/Sequence*/Traverse*/FlatMapTraverse*/FoldFuture/Transform*/Recover*/Or/OrFuture/Failed/Replace/MapSeqLift, Chain2-9 and Applicative2-9 builders with every Ap* variant, LiftA2-9/LiftM2-9, Apply/Apply2/Func*/Unit* leaves with failing and panicking bodies) over source promises completed in seeded phases (before the build, during, after, never), per-node executors, every atomic step a scheduling point. After every scheduler step every built node that is complete must equal a hand-written three-valued (Pending/Success/Failure) left-to-right reference evaluation over the currently completed sources (never early, right value, stable); at every quiescence complete <=> reference not Pending (always completes, also for Apply bodies that panic); root observers fire exactly once. Sampling, not proof.",
+   note="Trusted: the harness's reference interpreter (independent of the try package), executors never drop a runnable, user functions other than Apply bodies do not panic. Await/promise.WithTimeout (real timers) are outside the statement. Method/FlatMethod/Flap are generated up to arity 4 and Compose up to 3 only.",
    technique="deterministic simulation: seeded scheduler + phased source completion + fault plan on Apply bodies/sources, step invariant against a three-valued reference model"),
  "C16": dict(cat="exploration", design="DESIGN.md §4 C16",
    text="Seeded deterministic simulation in four run classes. (memo) 2-5 tasks call Get concurrently and repeatedly on one shared deferred value (lazy.Call/TailCall/TailCall1-3/Memoize/Func1-3, fp.Memoize) whose instrumented thunk counts executions, yields inside (other tasks then really block on the library's sync.Once; detected from the runtime's wait reason) and, as a fault, panics. (eval) random Eval expression trees shared by 1-4 tasks, compared with a strict interpreter. (list) memoised list cells of fp.MakeList/list.Generate*/Recurrence*/Map/Zip/Scan/Collect/iterator.ToList walked by 2-4 tasks. (tailrec) tail-recursive TailCall/TailCall1-3/mutual-recursion programs up to 10^6 (quick) / 2*10^7 (thorough) steps under an 8 MB stack limit; a stack overflow is a fatal error attributed through the crash journal. Oracles: every deferred computation instance executes at most once at all times, results equal strict evaluation and are not returned before the computation finished. Sampling, not proof.",
